@@ -181,11 +181,21 @@ def rem (a b : NumRepr) : Res :=
   | some (x, y) => finish (if y = -1 then some 0 else checkedRemEuclid x y)
   | none => .err
 
-/-- `ops::pow` on integers: `u32::try_from(b).ok().and_then(|b| a.checked_pow(b))` -/
+/-- `match u32::try_from(b).ok().and_then(|b| a.checked_pow(b))` of `ops::pow`: `None` when the
+    exponent is no `u32` or the power overflows -/
+def powChecked (x y : Int) : Option Int :=
+  if 0 ≤ y ∧ y < 4294967296 then checkedPow x y.toNat else none
+
+/-- `ops::pow` on integers: `match … { Some(val) => Ok(int_as_value(val)), None if b > 0 &&
+    (-1..=1).contains(&a) => Ok(int_as_value(if b % 2 == 0 { a * a } else { a })), None => Err(..) }`
+    — 0, 1 and -1 can be raised to any positive power, also to one beyond `u32` (fix 3a8d5c6) -/
 def pow (a b : NumRepr) : Res :=
   match coerce a b with
   | some (x, y) =>
-    if 0 ≤ y ∧ y < 4294967296 then finish (checkedPow x y.toNat) else .err
+    match powChecked x y with
+    | some v => .ok (intAsValue v)
+    | none =>
+      if 0 < y ∧ -1 ≤ x ∧ x ≤ 1 then .ok (intAsValue (if y % 2 = 0 then x * x else x)) else .err
   | none => .err
 
 /-- `ops::neg` on an integer.  The "special case for the largest i128 that can still be
@@ -252,12 +262,11 @@ def Op.denote : Op → Int → Int → Int
   | .rem, a, b => a % b
   | .pow, a, b => a ^ b.toNat
 
-/-- where the operator has an integer meaning the engine supports: non-zero divisor, exponent a
-    `u32` -/
+/-- where the operator has an integer meaning: non-zero divisor, non-negative exponent -/
 def Op.Defined : Op → Int → Int → Prop
   | .floordiv, _, b => b ≠ 0
   | .rem, _, b => b ≠ 0
-  | .pow, _, b => 0 ≤ b ∧ b < 4294967296
+  | .pow, _, b => 0 ≤ b
   | _, _, _ => True
 
 instance (op : Op) (a b : Int) : Decidable (op.Defined a b) := by
